@@ -34,6 +34,15 @@ func parseTextDescription(data []byte) (TextDescription, error) {
 		return desc, err
 	}
 
+	// The count includes the terminating null and is untrusted: it can be zero
+	// (no ASCII description) and cannot exceed what is left of the tag
+	if asciiCount == 0 {
+		return desc, nil
+	}
+	if uint64(asciiCount) > uint64(reader.Len()) {
+		return desc, fmt.Errorf("ASCII description exceeds tag data length")
+	}
+
 	asciiBytes := make([]byte, asciiCount-1)
 	for i := 0; i < len(asciiBytes); i++ {
 		asciiBytes[i], err = reader.ReadByte()
